@@ -118,7 +118,9 @@ RULE = ("cases = corpus (defect witnesses, corner cases) + N random histories of
         "(seeded change C06-13): quiet rules, 2..4 facts of a type, fire_all, then reset + ONE update (mostly to non-matching contents) / "
         "retract / insert + fire_all — clause quiescent_fire_all_exact_by_type (C06.exactTypeOk: the clause applies as soon as the TYPE of "
         "every live fact was touched since the last fire_all; order-independent, judged on several live facts per type). "
-        "Non-trivial = at least one rule fired in a history that also updates or retracts a fact; distinct = distinct case text.")
+        "Non-trivial = at least one rule fired in a history that also updates or retracts a fact; distinct = distinct case text. On top come N/6 BLANKS-AND-LOOK-ALIKES cases: condition literals and fact values from the table q<k> (empty, blank-only, "
+        "leading / trailing blanks, texts that read as a number / boolean / null with and without blanks) under every string operator and "
+        "comparison, through the directly built alpha nodes, with_typed_value and the GRL loader twin.")
 TRUSTED = [
     "Lean 4.33 kernel; axioms of every property theorem within {propext, Classical.choice, Quot.sound} (audited each run)",
     "hand-written model RreModel/C06/Model.lean (+ the agenda model of C07) tied to src/rete/{working_memory,propagation,network,alpha,facts}.rs "
@@ -139,7 +141,10 @@ ASSUMPTIONS = [
     "rules are added before any fact is inserted (as GrlReteLoader users do); activations are created by propagation only",
     "reset_with_deffacts installs a NEW WorkingMemory (CLIPS reset): 'handles are never reused' is stated per working memory — the "
     "oracle starts a new epoch there (handles_fresh_xhistory: second conjunct excludes it; wm_views_agree_xhistory includes it)",
-    "strings: `s<k>` identifiers and words over {a,b,c} (no string that parses as a number or boolean; no string equal to a field key)",
+    "strings: `s<k>` identifiers, words over {a,b,c}, and the table `q<k>` (C06.oddStrings: empty, blank-only, leading / trailing blanks, "
+    "texts that read as an integer / half-integer float / boolean / null with and without blanks around them) as fact values and as "
+    "condition literals — a literal is the alpha node's TEXT, typed by C06.classifyText as AlphaNode::parse_value_string does (no trimming); "
+    "q-strings stay out of arithmetic expressions and array literals; no string equal to a field key",
     "exactness clause: fact contents are maps (one binding per field, as TypedFacts is a HashMap); at most max_iterations = 1000 rules",
 ]
 
